@@ -1,4 +1,6 @@
 import MgpuModel.Util
+import MgpuModel.C11Cp
+import MgpuModel.C11Mq
 /-! # C11 — host/device copies: splitting, page-table copy semantics, DMA engine
 
 Hand-written model (tie H) of
@@ -332,6 +334,80 @@ def readImg (pt : List Page) (img : Array (Array Nat)) (pa n : Nat) : List Nat :
     let page := img.getD i #[]
     (List.range n).map fun k => page.getD (pa - p.paddr + k) 0
 
+/-! ## The emulator's storage accessor across page-table changes
+
+`emu.storageAccessorImpl.Read/Write` look every page up in the page table at the time of the access;
+the same accessor object is used before and after `Remap` / `Distribute` / `Free` change the table.
+A run is a list of steps: the table changes, or an access is made under the table current at that
+step (`h2d` / `d2h` with the current `pt`). -/
+
+inductive AccOp where
+  | setPt (pt : List Page)
+  | write (addr : Nat) (data : List Nat)
+  | read (addr len : Nat)
+
+structure AccSt where
+  pt : List Page
+  m : Mem
+  /-- one entry per access: `none` = "page not found" panic; a write answers `some []` -/
+  outs : List (Option (List Nat)) := []
+
+def accStep (s : AccSt) : AccOp → AccSt
+  | .setPt pt => { s with pt := pt }
+  | .write a d =>
+    match h2d s.pt s.m a d with
+    | some m' => { s with m := m', outs := s.outs ++ [some []] }
+    | none => { s with outs := s.outs ++ [none] }
+  | .read a l => { s with outs := s.outs ++ [d2h s.pt s.m a l] }
+
+def accRun (s : AccSt) (ops : List AccOp) : AccSt := ops.foldl accStep s
+
+/-- executable version over the per-frame byte-array image (`frames`: every physical frame of the
+    scenario as a `Page` with `vaddr = paddr`); the pieces come from the same `pieces` function -/
+structure AccImg where
+  pt : List Page := []
+  img : Array (Array Nat)
+  out : List String := []
+
+def accLineOp (frames : List Page) (s : AccImg) (toks : List String) : AccImg :=
+  match toks with
+  | ["pt", p] =>
+    match (if p == "-" then some [] else parsePt p) with
+    | some pt => { s with pt := pt }
+    | none => { s with out := "bad" :: s.out }
+  | ["w", a, l, salt] =>
+    match hexNat? a, l.toNat?, salt.toNat? with
+    | some a, some l, some salt =>
+      match pieces s.pt l a 0 l with
+      | some ps =>
+        let img := ps.foldl (fun img (p : Nat × Nat × Nat) =>
+          writeImg frames img p.1 (Array.ofFn (n := p.2.2) fun k => h2dByte (a + salt) (p.2.1 + k.val))) s.img
+        { s with img := img, out := "ok" :: s.out }
+      | none => { s with out := "fault:page_not_found" :: s.out }
+    | _, _, _ => { s with out := "bad" :: s.out }
+  | ["r", a, l] =>
+    match hexNat? a, l.toNat? with
+    | some a, some l =>
+      match pieces s.pt l a 0 l with
+      | some ps => { s with out := toHex (fnv (ps.flatMap fun (p : Nat × Nat × Nat) => readImg frames s.img p.1 p.2.2)) :: s.out }
+      | none => { s with out := "fault:page_not_found" :: s.out }
+    | _, _ => { s with out := "bad" :: s.out }
+  | ["img"] => { s with out := joinWith "," (s.img.toList.map fun pg => toHex (fnv pg.toList)) :: s.out }
+  | _ => { s with out := "bad" :: s.out }
+
+def runAccRun (cfg : List String) (ops : List String) : String :=
+  match (kv? cfg "frames").bind (fun f => if f == "" then some [] else (f.splitOn ",").mapM fun e =>
+      match e.splitOn ":" with
+      | [p, z] => do
+        let p ← hexNat? p
+        let z ← z.toNat?
+        pure ({ vaddr := p, paddr := p, size := z } : Page)
+      | _ => none), kvNat? cfg "seed" with
+  | some frames, some seed =>
+    let s := ops.foldl (fun s o => accLineOp frames s (words o)) ({ img := initPages frames seed } : AccImg)
+    joinWith " " s.out.reverse
+  | _, _ => "bad"
+
 def handle (line : String) : String :=
   let segs := splitTrim line ";"
   match segs with
@@ -351,6 +427,9 @@ def handle (line : String) : String :=
       | some a, some b, some c, some d => toString (memRangeOverlap a b c d)
       | _, _, _, _ => "bad"
     | "c11" :: "dma" :: cfg => runDma (joinWith " " cfg :: rest)
+    | "c11" :: "cpmw" :: cfg => runCpmw cfg rest
+    | "c11" :: "mq" :: cfg => runMq cfg rest
+    | "c11" :: "accrun" :: cfg => runAccRun cfg rest
     | "c11" :: "flush" :: _ =>
       let ops := rest.filterMap fun o =>
         match words o with
